@@ -161,8 +161,8 @@ func C01(t *testing.T, ch *choice.Source, opt harness.Options, env *Env) harness
 	var stale *staleMon
 	// a failed Verify() on a platform where the named stale-L1 condition occurred is reported under that cause
 	vclass := func() string {
-		if stale != nil && stale.StaleHits > 0 {
-			return staleL1Cause
+		if cause, _ := stale.knownCause(); cause != "" {
+			return cause
 		}
 		return class()
 	}
@@ -242,8 +242,8 @@ func C01(t *testing.T, ch *choice.Source, opt harness.Options, env *Env) harness
 			res.Rule, res.Signature = "R1", vclass()+"/verify-failed"
 		}
 		res.Detail = msg
-		if stale != nil && stale.StaleHits > 0 {
-			res.Detail += fmt.Sprintf("; %d stale first-level-cache reads, first: %s", stale.StaleHits, stale.Example)
+		if _, ex := stale.knownCause(); ex != "" {
+			res.Detail += "; " + ex
 		}
 	}
 	_ = appErr
